@@ -200,6 +200,48 @@ Theorem C16_macrobody_flag_stops_run_t :
 Proof. exact macrobody_flag_stops_run_t. Qed.
 Print Assumptions C16_macrobody_flag_stops_run_t.
 
+(* no guard needed: every entry written comes from a flagged surface (or a
+   copy of one) and has the kind of its flag; unflagged surfaces yield none *)
+Theorem C16_bc_entry_sound : forall (t : table) (l : list (kind * N)) (kd : kind) (k : N),
+  NoDup (map fst t) -> bc_entries t = Ok l -> In (kd, k) l ->
+  exists e, In (k, e) t /\ e_flag e <> "" /\
+    (e_flag e = "*" -> kd = Reflection) /\ (e_flag e = "+" -> kd = Cosinus).
+Proof. exact bc_entry_sound. Qed.
+Print Assumptions C16_bc_entry_sound.
+
+(* no guard needed: an entry never designates a written surface of ANOTHER
+   locus.  When the designated number is a SURF line at all, the line carries
+   the descriptor of the flagged surface (or TRCL copy) the entry was made
+   for.  So the defects of the unchanged code (C16_*_refuted) are all of one
+   sort: the designated surface is absent, never wrong. *)
+Theorem C16_bc_never_designates_other_locus :
+  forall (cfg : config) (cards : list scard) (tcells : list tcell) (t : table)
+         (cells : list (bool * cell)) (t' : table)
+         (surfs : list (N * N)) (bcs : list (kind * N)) (kd : kind) (k d : N),
+  parse_cards cards [] = Ok t ->
+  apply_trcls tcells t (N.succ (max_key t)) = Ok (cells, t') ->
+  run_t cfg cards tcells = Ok (surfs, bcs) ->
+  In (kd, k) bcs -> In (k, d) surfs ->
+  exists e, In (k, e) t' /\ d = e_first e /\ inherits t e /\ e_flag e <> "" /\
+    (e_flag e = "*" -> kd = Reflection) /\ (e_flag e = "+" -> kd = Cosinus).
+Proof. exact bc_never_other_locus. Qed.
+Print Assumptions C16_bc_never_designates_other_locus.
+
+(* the whole block of a deck with MCNP's flags only and no flagged macrobody:
+   the flagged cards in card order, then the copies of flagged surfaces made
+   for cells with TRCL, in cell and literal order *)
+Theorem C16_run_t_block_exact :
+  forall (cfg : config) (cards : list scard) (tcells : list tcell) (t : table)
+         (cells : list (bool * cell)) (t' : table)
+         (surfs : list (N * N)) (bcs : list (kind * N)),
+  skip_bc cfg = false ->
+  parse_cards cards [] = Ok t -> proper t ->
+  apply_trcls tcells t (N.succ (max_key t)) = Ok (cells, t') ->
+  run_t cfg cards tcells = Ok (surfs, bcs) ->
+  bcs = flat_map entry_of t'.
+Proof. exact run_t_block_exact. Qed.
+Print Assumptions C16_run_t_block_exact.
+
 (* *2 PX 0 used only by a cell with TRCL=(1 0 0): one flagged surface bounding
    a converted cell yields two entries; the one for the copy (7) designates a
    written SURF, the one for the original designates nothing, with and without
